@@ -120,6 +120,8 @@ CASES = {
  "a_reverse": ({"xs": LS, "v": Str}, Int, [([], "a")]),
  "a_nested_param": ({"d": DSD, "k": Str}, Int, [({"k": {}}, "k")]),
  "a_loop_elem": ({"xss": List(LS)}, Int, [([["a"]],)]),
+ "i_round3": ({"a": Int, "b": Int}, Bool, [(1, 3), (1999, 2000), (2499, 2500), (2, 2), (9994, 10000), (9996, 10000)]),
+ "i_round1_cmp": ({"a": Int, "b": Int}, Bool, [(1, 3), (44, 100), (46, 100), (2, 3)]),
  "t_typeerror_none_len": ({"x": OS}, Int, [("ab",), (None,)]),
  "t_none_attr": ({"x": OS}, Bool, [("ab",), (None,)]),
 }
